@@ -201,7 +201,8 @@ class ZopeInterfaceModuleVisitor(extensions.ModuleVisitorExt):
         if not isinstance(expr, ast.Call):
             return
         attr: Optional[model.Documentable] = self.visitor.builder.current.contents.get(target)
-        if attr is None:
+        if not isinstance(attr, model.Attribute):
+            # Nothing, or a function or class of that name which stays the documented object.
             return
         funcName = astbuilder.node2fullname(expr.func, self.visitor.builder.current)
         if funcName is None:
